@@ -56,8 +56,10 @@ func runC01(c *vkit.Ctx, i int, h *History) {
 	s.seedPre(h)
 	ok := true
 	var premise Problem
-	// run 1: record
-	s.RunProcess(r, h, vkit.Mode{}, r.IntN(2) == 0, nil, func(o Op, res StepResult) bool {
+	// run 1: record - one execution per test. Re-executions belong to the replays: a second or
+	// third execution of the same test (-count) is "a later run that makes the same calls" too,
+	// and must not be hidden inside the premise.
+	s.RunProcessN(r, h, vkit.Mode{}, r.IntN(2) == 0, 1, nil, func(o Op, res StepResult) bool {
 		c.Count("record_calls", 1)
 		c.Count("record_outcome_"+res.Got, 1)
 		// premise of C01: the run recorded (every call got the outcome the model gives).
